@@ -98,6 +98,16 @@ Proof.
 Qed.
 Print Assumptions C01_daily_days_predicted_identically.
 
+(* ... and the timezone guard of predict refuses exactly the same reporting zones (same ValueError) *)
+Theorem C01_daily_timezone_guard : forall p s, wf_state s -> accepts (ctor_schema p) (ds_settings s) = true ->
+  exists s', from_doc' (class_of p) (to_doc (class_of p) s) = Some s' /\
+    forall reporting_tz, tz_guard_refuses s' reporting_tz = tz_guard_refuses s reporting_tz.
+Proof.
+  intros p s Hwf Hacc. destruct (C01_daily_roundtrip p s Hwf Hacc) as (s' & Hs & _ & _ & _ & _ & Htz & _).
+  exists s'. split; [exact Hs|]. intros r. unfold tz_guard_refuses. rewrite Htz. reflexivity.
+Qed.
+Print Assumptions C01_daily_timezone_guard.
+
 (* exact guard for DailyModel: one of the two settings classes accepts the stored tree *)
 Theorem C01_daily_roundtrip_iff : forall s, wf_state s ->
   (from_doc' Daily (to_doc Daily s) = Some s <-> accepts cur (ds_settings s) || accepts leg (ds_settings s) = true).
